@@ -40,6 +40,7 @@ REQUIRED = {
         'cli-runs-with-verbosity-3': 5,
         'runs-via-subprocess': 1,
         'contract-evaluations:spowtd.classify.match_storms': 100,
+        'classifications-of-records-with-2000+-steps': 4,
     }
     for tier in ('quick', 'thorough')
 }
